@@ -115,6 +115,27 @@ macro_rules! direct_body {
             buf.clone_from_slice(&out);
             return;
         }
+        if variant == 4 {
+            // alternate: a parallel batch, a single block, a parallel batch, ...
+            loop {
+                if w > 0 && buf.len() >= w {
+                    let (c, rest) = buf.split_at_mut(w);
+                    let pb: &mut ParBlocks<$B> = c.try_into().unwrap();
+                    $backend.$par_inplace(pb);
+                    buf = rest;
+                }
+                if buf.is_empty() {
+                    break;
+                }
+                let (c, rest) = buf.split_at_mut(1);
+                $backend.$block_inplace(&mut c[0]);
+                buf = rest;
+                if buf.is_empty() {
+                    break;
+                }
+            }
+            return;
+        }
         if variant == 2 && !buf.is_empty() {
             let (first, rest) = buf.split_at_mut(1);
             $backend.$block_inplace(&mut first[0]);
@@ -165,6 +186,28 @@ impl<BS: cipher::crypto_common::BlockSizes> cipher::StreamCipherClosure for Dire
         if self.variant == 0 || w == 0 {
             for b in self.buf.iter_mut() {
                 backend.gen_ks_block(b);
+            }
+            return;
+        }
+        if self.variant == 2 {
+            // alternate: a parallel batch, a single block, a parallel batch, ... (whatever is left: block by block)
+            let mut buf: &mut [Array<u8, BS>] = self.buf;
+            loop {
+                if buf.len() >= w {
+                    let (c, rest) = buf.split_at_mut(w);
+                    let pb: &mut ParBlocks<B> = c.try_into().unwrap();
+                    backend.gen_par_ks_blocks(pb);
+                    buf = rest;
+                }
+                if buf.is_empty() {
+                    break;
+                }
+                let (c, rest) = buf.split_at_mut(1);
+                backend.gen_ks_block(&mut c[0]);
+                buf = rest;
+                if buf.is_empty() {
+                    break;
+                }
             }
             return;
         }
@@ -433,7 +476,7 @@ impl<M: ModeOps> Obj for BlockObj<M> {
             }
             ["backend", v, x] => {
                 let (Ok(v), Some(mut b)) = (v.parse::<u8>(), unhex(x)) else { return bad() };
-                if b.len() % M::MBS != 0 || v > 3 {
+                if b.len() % M::MBS != 0 || v > 4 {
                     return bad();
                 }
                 self.m.backend(v, &mut b);
